@@ -1295,7 +1295,7 @@ static void build_large (int thorough, const char *which)
 		/* r sweep and k sweep: every number of repair symbols 3..130 (k=40) and every k 3..300 (r=20), a few ML-needing patterns each */
 		int k, r;
 		for (r = 3; r <= (thorough ? 260 : 130); r++) {
-			c0 = NCF; add_cfg (3, 0, 40, r, 3 + r % 3 <= r ? 3 + r % 3 : 3, 1 + r % 4, 4, 0, 0, 0);
+			c0 = NCF; add_cfg (3, 0, 40, r, 3 + r % 3 <= r ? 3 + r % 3 : 3, 1 + r % 4, 4 + r % 8, 0, 0, 0);	/* symbol length 44..51: every residue modulo 8 */
 			add_scen (c0, "Sw0+40,F"); add_scen (c0, "Sw%d+41,F", r / 2); add_scen (c0, "Bw%d+40,F", r); add_scen (c0, "Sp2.0,F"); add_scen (c0, "Cp3.1,F"); add_scen (c0, "Ra-1,F");
 		}
 		for (k = 3; k <= (thorough ? 520 : 300); k += thorough ? 1 : (k < 80 ? 1 : 4)) {
@@ -1361,7 +1361,7 @@ static void build_large (int thorough, const char *which)
 			if (!thorough && k == 600 && 0) continue;
 			for (N1 = 3; N1 <= 5; N1++) {
 				int wl[6], wi, astep = thorough ? (n > 400 ? 7 : 1) : (n > 100 ? 17 : 5);
-				c0 = NCF; add_cfg (3, 0, k, r, N1, 1 + i, 4, 0, 0, 0);
+				c0 = NCF; add_cfg (3, 0, k, r, N1, 1 + i, 4 + ((N1 == 3 ? 7 : N1 == 4 ? 5 : 2) - (k + 4) % 8 + 8) % 8, 0, 0, 0);	/* symbol length = 7, 5, 2 modulo 8 for N1 = 3, 4, 5 (tails of the word-wise kernels inside large eliminations) */
 				add_scen (c0, "Aa-,F"); add_scen (c0, "Sa-,F"); add_scen (c0, "Ba-"); add_scen (c0, "Ra-,F"); add_scen (c0, "Ca-"); add_scen (c0, "Ea-,F"); add_scen (c0, "Ga-0,F");
 				wl[0] = k - 1; wl[1] = k; wl[2] = k + 1; wl[3] = (int) (1.05 * k + 0.999); wl[4] = (int) (1.1 * k + 0.999); wl[5] = (int) (1.2 * k + 0.999);
 				for (wi = 0; wi < 6; wi++)
